@@ -1,3 +1,4 @@
+import Ebu.Props.C03
 import Ebu.Spec.Bus
 import Ebu.Proofs.BusPersist
 /-!
@@ -67,5 +68,12 @@ theorem offsets_increasing {R : Type} (I : RegImpl R) (cfg : Config) (fuel : Nat
     let s := run I cfg fuel faults prog
     okOffsets s.c.trace = (List.range s.c.log.length).map (· + 1) ∧ s.c.lastOffset = s.c.log.length :=
   Ebu.Bus.offsets_increasing I cfg fuel faults prog
+
+/-- N publishes from any number of goroutines give N records with strictly increasing offsets
+because `persistEvent` calls `store.Append` and updates `lastOffset` inside one `storeMu` critical
+section in the CURRENT source (fact table regenerated from persist.go on every run): appends are
+serialised, so the sequential theorem `offsets_increasing` applies to every interleaving -/
+theorem appends_serialised : Ebu.Locks.CallbacksOk Ebu.Generated.callbackFacts = true :=
+  Ebu.Props.C03.facts_callbacks_lock_free
 
 end Ebu.Props.C09
